@@ -146,9 +146,15 @@ func (t *tr) callWrites(c *ast.CallExpr) []ast.Expr {
 		return []ast.Expr{c.Args[0]}
 	}
 	sig := fn.Type().(*types.Signature)
-	if sig.Recv() != nil && (isBigLib(sig.Recv().Type()) || isElem(sig.Recv().Type())) {
+	if sig.Recv() != nil && (isBigLib(sig.Recv().Type()) || isElem(sig.Recv().Type())) && !translatedHere(t, fn) {
 		sel := c.Fun.(*ast.SelectorExpr)
 		name := fn.Name()
+		if isElem(sig.Recv().Type()) && curLimb {
+			if _, ok := limbPrims[name]; ok {
+				return []ast.Expr{sel.X}
+			}
+			return nil
+		}
 		if isBigLib(sig.Recv().Type()) {
 			if _, ok := bigPure[name]; ok {
 				return nil
@@ -295,6 +301,13 @@ func (t *tr) stmts(list []ast.Stmt, k cont) string {
 	switch x := s.(type) {
 	case *ast.ReturnStmt:
 		var vals []string
+		if len(x.Results) == 0 && t.nres > 0 {
+			// bare return: the named results
+			for _, v := range t.namedRes {
+				vals = append(vals, t.name(v))
+			}
+			return t.flush() + t.doRet(x, k, vals)
+		}
 		if len(x.Results) == 1 && t.nres > 1 {
 			// return f(...) with several results
 			c, ok := x.Results[0].(*ast.CallExpr)
@@ -372,6 +385,11 @@ func (t *tr) stmts(list []ast.Stmt, k cont) string {
 				}
 				t.pre = append(t.pre, "let "+t.name(v)+" : "+t.varLeanType(v)+" := "+val)
 			}
+		}
+	case *ast.DeferStmt:
+		f := t.calleeFunc(x.Call)
+		if f == nil || f.Name() != "Put" || f.Type().(*types.Signature).Recv() == nil || !isNamed(f.Type().(*types.Signature).Recv().Type(), "sync", "Pool") {
+			t.fail(x, "defer (only `defer pool.Put(x)` is supported)")
 		}
 	case *ast.ExprStmt:
 		c, ok := x.X.(*ast.CallExpr)
@@ -451,6 +469,10 @@ func (t *tr) assign(x *ast.AssignStmt) {
 			op = token.SUB
 		case token.MUL_ASSIGN:
 			op = token.MUL
+		case token.SHR_ASSIGN:
+			op = token.SHR
+		case token.SHL_ASSIGN:
+			op = token.SHL
 		default:
 			t.fail(x, "unsupported assignment operator %s", x.Tok)
 		}
@@ -569,6 +591,9 @@ func (t *tr) assign(x *ast.AssignStmt) {
 
 func (t *tr) binaryWithTypes(be *ast.BinaryExpr, ty types.Type) string {
 	a, b := t.expr(be.X), t.expr(be.Y)
+	if be.Op == token.SHL || be.Op == token.SHR {
+		b = t.shiftCount(be.Y)
+	}
 	lt := leanType(ty)
 	switch lt {
 	case "UInt8":
@@ -588,6 +613,21 @@ func (t *tr) binaryWithTypes(be *ast.BinaryExpr, ty types.Type) string {
 			return "(" + a + " - " + b + ")"
 		case token.MUL:
 			return "(" + a + " * " + b + ")"
+		}
+	case "Nat":
+		switch be.Op {
+		case token.AND:
+			return "(" + a + " &&& " + b + ")"
+		case token.OR:
+			return "(" + a + " ||| " + b + ")"
+		case token.XOR:
+			return "(" + a + " ^^^ " + b + ")"
+		case token.SHR:
+			return "(" + a + " >>> " + b + ")"
+		case token.SHL:
+			if basicKind(ty) == types.Uint64 {
+				return "(I3.Go.u64shl " + a + " " + b + ")"
+			}
 		}
 	}
 	t.fail(be.X, "unsupported op-assignment on %s", lt)
